@@ -2641,7 +2641,8 @@ registration types — REG_NGP 0x9211, REG2 0x9201, REG3 0x9202, REG_ERR 0x9210 
 is; neither is a reload (`apply_connection_changes` may remove or shift the link the chain follows). -/
 theorem C08_bystander_def (e : Ev) :
     Audit2B.bystander e = true ↔
-      ((∀ t, e ≠ .hk t) ∧ (∀ c, e ≠ .failNext c) ∧ (∀ c, e ≠ .failBind c) ∧ e.isReload = false ∧
+      ((∀ t, e ≠ .hk t) ∧ (∀ c, e ≠ .failNext c) ∧ (∀ c k, e ≠ .failAfter c k) ∧ (∀ c, e ≠ .failBind c) ∧
+       e.isReload = false ∧
        ∀ now c data t, e = .uplink now c data → Codec.getPacketTypeS data = some t →
          t ≠ 37393 ∧ t ≠ 37377 ∧ t ≠ 37378 ∧ t ≠ 37392) := by
   cases e with
@@ -2655,7 +2656,8 @@ theorem C08_bystander_def (e : Ev) :
     | none =>
       constructor
       · intro _
-        refine ⟨fun t h => (by cases h), fun c h => (by cases h), fun c h => (by cases h), rfl, ?_⟩
+        refine ⟨fun t h => (by cases h), fun c h => (by cases h), fun c k h => (by cases h), fun c h => (by cases h),
+          rfl, ?_⟩
         intro now' c' data' t' h ht'
         cases h
         rw [ht] at ht'; cases ht'
